@@ -43,6 +43,7 @@ Record lst := {
   l_mu : side -> option tid;          (* readMu / writeFrameMu *)
   l_tl_exited : bool;                 (* timeoutLoop has returned (timeoutLoopDone closed) *)
   l_cr : option tid;                  (* the CloseRead goroutine, once started *)
+  l_lockreq : bool;                   (* a lock wait was given up because its context ended: the timeout goroutine is asked to close (conn.go lockTimeout) *)
   l_thr : tid -> lthr }.
 
 Definition side_eqb (a b : side) : bool := match a, b with SR, SR => true | SW, SW => true | _, _ => false end.
@@ -66,7 +67,7 @@ Definition lret (th : lthr) (r : lres) : lthr :=
 
 Definition with_t (s : lst) (t : tid) (th : lthr) : lst :=
   {| l_closed := l_closed s; l_closing := l_closing s; l_arm := l_arm s; l_done := l_done s; l_mu := l_mu s;
-     l_tl_exited := l_tl_exited s; l_cr := l_cr s; l_thr := updt (l_thr s) t th |}.
+     l_tl_exited := l_tl_exited s; l_cr := l_cr s; l_lockreq := l_lockreq s; l_thr := updt (l_thr s) t th |}.
 
 (* after a section: what the thread does next *)
 Definition after_section (th : lthr) (ok : bool) (k : cont) : lthr :=
@@ -83,16 +84,16 @@ Definition lstep (s : lst) (e : lev) : option lst :=
   match e with
   | LCancel c => if Nat.eqb c 0 then None else
       Some {| l_closed := l_closed s; l_closing := l_closing s; l_arm := l_arm s; l_done := updc (l_done s) c; l_mu := l_mu s;
-              l_tl_exited := l_tl_exited s; l_cr := l_cr s; l_thr := l_thr s |}
+              l_tl_exited := l_tl_exited s; l_cr := l_cr s; l_lockreq := l_lockreq s; l_thr := l_thr s |}
   | LTimeout =>
       (* conn.go timeoutLoop: exits when closed; closes the connection when a watched context is done *)
       if l_tl_exited s then None
       else if l_closed s then
         Some {| l_closed := true; l_closing := l_closing s; l_arm := l_arm s; l_done := l_done s; l_mu := l_mu s;
-                l_tl_exited := true; l_cr := l_cr s; l_thr := l_thr s |}
-      else if l_done s (l_arm s SR) || l_done s (l_arm s SW) then
+                l_tl_exited := true; l_cr := l_cr s; l_lockreq := l_lockreq s; l_thr := l_thr s |}
+      else if l_lockreq s || l_done s (l_arm s SR) || l_done s (l_arm s SW) then
         Some {| l_closed := true; l_closing := l_closing s; l_arm := l_arm s; l_done := l_done s; l_mu := l_mu s;
-                l_tl_exited := true; l_cr := l_cr s; l_thr := l_thr s |}
+                l_tl_exited := true; l_cr := l_cr s; l_lockreq := l_lockreq s; l_thr := l_thr s |}
       else None
   | LIOReady t =>
       let th := l_thr s t in
@@ -124,36 +125,43 @@ Definition lstep (s : lst) (e : lev) : option lst :=
       | LClose cw cr :: _ =>
           if l_closing s then Some (with_t s t (set_lp th (LWaitTL false)))    (* casClosing failed: waitGoroutines, then net.ErrClosed *)
           else Some {| l_closed := l_closed s; l_closing := true; l_arm := l_arm s; l_done := l_done s; l_mu := l_mu s;
-                       l_tl_exited := l_tl_exited s; l_cr := l_cr s; l_thr := updt (l_thr s) t (set_lp th (LWantMu SW cw (KThenHandshake cr))) |}
+                       l_tl_exited := l_tl_exited s; l_cr := l_cr s; l_lockreq := l_lockreq s; l_thr := updt (l_thr s) t (set_lp th (LWantMu SW cw (KThenHandshake cr))) |}
       | LCloseNow :: _ =>
           if l_closing s then Some (with_t s t (set_lp th (LWaitTL false)))
           else Some {| l_closed := l_closed s; l_closing := true; l_arm := l_arm s; l_done := l_done s; l_mu := l_mu s;
-                       l_tl_exited := l_tl_exited s; l_cr := l_cr s; l_thr := updt (l_thr s) t (set_lp th (LDoClose KRet)) |}
+                       l_tl_exited := l_tl_exited s; l_cr := l_cr s; l_lockreq := l_lockreq s; l_thr := updt (l_thr s) t (set_lp th (LDoClose KRet)) |}
       | LCloseRead c g :: _ =>
           match l_cr s with
           | Some _ => Some (with_t s t (lret th ROk))                           (* idempotent *)
           | None =>
             (* start goroutine g: it performs a read section under c and closes the connection when the section ends *)
             let s1 := {| l_closed := l_closed s; l_closing := l_closing s; l_arm := l_arm s; l_done := l_done s; l_mu := l_mu s;
-                         l_tl_exited := l_tl_exited s; l_cr := Some g;
+                         l_tl_exited := l_tl_exited s; l_cr := Some g; l_lockreq := l_lockreq s;
                          l_thr := updt (l_thr s) g {| lp := LWantMu SR c KCRData; lcalls := []; lresults := [] |} |} in
             Some (with_t s1 t (lret th ROk))
           end
       end
     | LWantMu sd c k =>
       (* conn.go mu.lock: { <-closed | <-ctx.Done() | acquire, then re-check closed } *)
-      if alt then (if l_closed s || l_done s c then Some (with_t s t (after_section th false k)) else None)
+      if alt then
+        (if l_closed s then Some (with_t s t (after_section th false k))
+         else if l_done s c then
+           (* the wait is given up because the call's context ended: the call fails and the timeout goroutine is asked to close the
+              connection (conn.go mu.lock: lockTimeout) *)
+           Some {| l_closed := l_closed s; l_closing := l_closing s; l_arm := l_arm s; l_done := l_done s; l_mu := l_mu s;
+                   l_tl_exited := l_tl_exited s; l_cr := l_cr s; l_lockreq := true; l_thr := updt (l_thr s) t (after_section th false k) |}
+         else None)
       else match l_mu s sd with
            | Some _ => None
            | None => if l_closed s then Some (with_t s t (after_section th false k))
                      else Some {| l_closed := l_closed s; l_closing := l_closing s; l_arm := l_arm s; l_done := l_done s; l_mu := updf (l_mu s) sd (Some t);
-                                  l_tl_exited := l_tl_exited s; l_cr := l_cr s; l_thr := updt (l_thr s) t (set_lp th (LArm sd c k)) |}
+                                  l_tl_exited := l_tl_exited s; l_cr := l_cr s; l_lockreq := l_lockreq s; l_thr := updt (l_thr s) t (set_lp th (LArm sd c k)) |}
            end
     | LArm sd c k =>
       (* select { <-closed: fail | timeout <- ctx } — the send needs the timeout goroutine, which only exits once closed *)
       if l_closed s then Some (with_t s t (set_lp th (LRelease sd false k)))
       else Some {| l_closed := l_closed s; l_closing := l_closing s; l_arm := updf (l_arm s) sd c; l_done := l_done s; l_mu := l_mu s;
-                   l_tl_exited := l_tl_exited s; l_cr := l_cr s; l_thr := updt (l_thr s) t (set_lp th (LIO sd c k)) |}
+                   l_tl_exited := l_tl_exited s; l_cr := l_cr s; l_lockreq := l_lockreq s; l_thr := updt (l_thr s) t (set_lp th (LIO sd c k)) |}
     | LIO sd c k =>
       (* blocked in I/O: it fails once the connection (hence the transport) is closed — and only then (T1) *)
       if l_closed s then Some (with_t s t (set_lp th (LRelease sd false k))) else None
@@ -162,12 +170,12 @@ Definition lstep (s : lst) (e : lev) : option lst :=
       if l_closed s then
         (if alt || l_tl_exited s then Some (with_t s t (set_lp th (LRelease sd false k)))
          else Some {| l_closed := l_closed s; l_closing := l_closing s; l_arm := updf (l_arm s) sd 0; l_done := l_done s; l_mu := l_mu s;
-                      l_tl_exited := l_tl_exited s; l_cr := l_cr s; l_thr := updt (l_thr s) t (set_lp th (LRelease sd true k)) |})
+                      l_tl_exited := l_tl_exited s; l_cr := l_cr s; l_lockreq := l_lockreq s; l_thr := updt (l_thr s) t (set_lp th (LRelease sd true k)) |})
       else Some {| l_closed := l_closed s; l_closing := l_closing s; l_arm := updf (l_arm s) sd 0; l_done := l_done s; l_mu := l_mu s;
-                   l_tl_exited := l_tl_exited s; l_cr := l_cr s; l_thr := updt (l_thr s) t (set_lp th (LRelease sd true k)) |}
+                   l_tl_exited := l_tl_exited s; l_cr := l_cr s; l_lockreq := l_lockreq s; l_thr := updt (l_thr s) t (set_lp th (LRelease sd true k)) |}
     | LRelease sd ok k =>
       Some {| l_closed := l_closed s; l_closing := l_closing s; l_arm := l_arm s; l_done := l_done s; l_mu := updf (l_mu s) sd None;
-              l_tl_exited := l_tl_exited s; l_cr := l_cr s;
+              l_tl_exited := l_tl_exited s; l_cr := l_cr s; l_lockreq := l_lockreq s;
               l_thr := updt (l_thr s) t (match k, ok with
                                         | KCRData, false => set_lp th (LDoClose KCRExit)      (* Reader failed: deferred close, exit *)
                                         | KCRData, true =>                                    (* a data message: the goroutine performs the close handshake itself (abstracted) and closes *)
@@ -176,7 +184,7 @@ Definition lstep (s : lst) (e : lev) : option lst :=
                                         end) |}
     | LDoClose k =>
       let s1 := {| l_closed := true; l_closing := l_closing s; l_arm := l_arm s; l_done := l_done s; l_mu := l_mu s;
-                   l_tl_exited := l_tl_exited s; l_cr := l_cr s; l_thr := l_thr s |} in
+                   l_tl_exited := l_tl_exited s; l_cr := l_cr s; l_lockreq := l_lockreq s; l_thr := l_thr s |} in
       Some (with_t s1 t (match k with KCRExit | KCRData => set_lp th LExited | _ => set_lp th (LWaitTL true) end))
     | LWaitTL ok => if l_tl_exited s then Some (with_t s t (set_lp th (LWaitCR ok))) else None
     | LWaitCR ok =>
@@ -199,7 +207,7 @@ Fixpoint lrun (s : lst) (sched : list lev) : lst :=
 
 Definition linit (progs : tid -> list lcall) : lst :=
   {| l_closed := false; l_closing := false; l_arm := fun _ => 0; l_done := fun _ => false; l_mu := fun _ => None;
-     l_tl_exited := false; l_cr := None;
+     l_tl_exited := false; l_cr := None; l_lockreq := false;
      l_thr := fun t => {| lp := LIdle; lcalls := progs t; lresults := [] |} |}.
 
 (* a thread is inside a section of [sd] under context c: between arming and re-arming *)
